@@ -9,6 +9,7 @@ import (
 	"crypto/sha1"
 	"encoding/hex"
 	"fmt"
+	"os"
 	"sort"
 	"strings"
 
@@ -229,7 +230,7 @@ func (tv *tableView) text(only map[int]bool) string {
 }
 
 func digest(s string) string {
-	if len(s) <= 4000 {
+	if len(s) <= 4000 || os.Getenv("C19_FULL") != "" {
 		return s
 	}
 	h := md5.Sum([]byte(s))
